@@ -214,3 +214,57 @@ func verif_C14_trip() {
 		}
 	}
 }
+
+// verif_C14_sequence: options belong to the call they were given to. Two
+// recipients (and two transactions) on one connection, the first with options,
+// the second with none - or the other way round: what the backend sees for
+// each MAIL / RCPT is exactly what the client was given for that one.
+func verif_C14_sequence() {
+	ext := map[string]string{"DSN": "", "SIZE": ""}
+	firstHas := nondetBool()
+	ro := &RcptOptions{Notify: []DSNNotify{DSNNotifyFailure}, OriginalRecipientType: DSNAddressTypeRFC822, OriginalRecipient: "o@p"}
+	mo := &MailOptions{Size: 7, Return: DSNReturnHeaders, EnvelopeID: "id1"}
+	var r1, r2 *RcptOptions
+	var m1, m2 *MailOptions
+	if firstHas {
+		r1, m1 = ro, mo
+	} else {
+		r2, m2 = ro, mo
+	}
+	c, vc := verifClient("250 2.0.0 ok\r\n250 2.0.0 ok\r\n250 2.0.0 ok\r\n250 2.0.0 ok\r\n", ext)
+	verifAssert(c.Mail("s1@v", m1) == nil && c.Rcpt("x@v", r1) == nil && c.Rcpt("y@v", r2) == nil, "C14.sequence-first-transaction")
+	verifAssert(c.Reset() == nil, "C14.sequence-reset")
+	// (Reset makes the client greet again)
+	vc.in = append(vc.in, "250-srv\r\n250-DSN\r\n250 SIZE\r\n250 2.0.0 ok\r\n"...)
+	verifAssert(c.Mail("s2@v", m2) == nil, "C14.sequence-second-mail")
+	be := &vbackend{}
+	s, _ := verifServer(be)
+	s.EnableDSN = true
+	verifServe(s, append([]byte("EHLO c\r\n"), vc.out...), io.EOF)
+	verifObserve("c14seq", firstHas, be.count("Mail"), be.count("Rcpt"))
+	verifAssert(be.count("Mail") == 2 && be.count("Rcpt") == 2 && be.lastSession != nil, "C14.sequence-arrives")
+	if be.count("Mail") != 2 || be.count("Rcpt") != 2 || be.lastSession == nil {
+		return
+	}
+	ls := be.lastSession
+	plainRcpt := func(o *RcptOptions) bool {
+		return o == nil || (len(o.Notify) == 0 && o.OriginalRecipient == "" && o.OriginalRecipientType == "" && o.RequireRecipientValidSince.IsZero())
+	}
+	fullRcpt := func(o *RcptOptions) bool {
+		return o != nil && len(o.Notify) == 1 && o.Notify[0] == DSNNotifyFailure && o.OriginalRecipient == "o@p" && o.OriginalRecipientType == DSNAddressTypeRFC822
+	}
+	plainMail := func(o *MailOptions) bool {
+		return o == nil || (o.Size == 0 && o.Return == "" && o.EnvelopeID == "" && o.Body == "" && o.Auth == nil && !o.UTF8 && !o.RequireTLS)
+	}
+	fullMail := func(o *MailOptions) bool {
+		return o != nil && o.Size == 7 && o.Return == DSNReturnHeaders && o.EnvelopeID == "id1" && o.Body == ""
+	}
+	if firstHas {
+		verifAssert(fullRcpt(ls.rcptOpts[0]) && plainRcpt(ls.rcptOpts[1]), "C14.sequence-rcpt-options-belong-to-their-recipient")
+		verifAssert(fullMail(ls.mailOpts[0]) && plainMail(ls.mailOpts[1]), "C14.sequence-mail-options-belong-to-their-transaction")
+	} else {
+		verifAssert(plainRcpt(ls.rcptOpts[0]) && fullRcpt(ls.rcptOpts[1]), "C14.sequence-rcpt-options-belong-to-their-recipient")
+		verifAssert(plainMail(ls.mailOpts[0]) && fullMail(ls.mailOpts[1]), "C14.sequence-mail-options-belong-to-their-transaction")
+	}
+	verifReach("C14.sequence-end")
+}
